@@ -104,6 +104,8 @@ def run(chk):
         for prob_ in C.batch_contract(sh_.compute_form_factor_amplitude, np.array([[0.3, -0.2, 0.5], [1.0, 0.0, 0.0], [0.0, 0.0, 0.0], [0.1, 0.7, -0.4], [0.0, 0.0, 2.0], [-0.6, 0.2, 0.1]]), "c", bare_row=False, lists=False):      # (documented input: an (N, 3) array; the property speaks of batches from (1, 3) upward)
             chk.violation("batch-contract", dict(cls=cls_, what=prob_)); break
         chk.count("batch-contract")
+        for prob_ in C.long_batch(sh_.compute_form_factor_amplitude, np.array([[0.3, -0.2, 0.5], [1.0, 0.0, 0.0], [0.0, 0.0, 0.0], [0.1, 0.7, -0.4], [0.0, 0.0, 2.0], [-0.6, 0.2, 0.1]]), "c", sizes=(1500, 2049)):
+            chk.violation("long-batch-vs-short", dict(cls=cls_, what=prob_))
         # a copy of a shape (deepcopy / pickle) scatters like its original, and resizing either leaves the other's amplitudes alone
         Qc_ = np.array([[0.3, -0.2, 0.5], [0.0, 0.0, 0.0], [0.0, 0.0, 2.0], [-0.6, 0.2, 0.1]])
         for prob_ in C.copy_probe(lambda: Z_.make(cls_)[0], lambda s_: dict(re=np.real(s_.compute_form_factor_amplitude(Qc_)), im=np.imag(s_.compute_form_factor_amplitude(Qc_))))[:1]:
